@@ -22,6 +22,20 @@ def build_wide(full):
     return vlib.compile_cxx(WIDE, "c05-wide" + ("-all" if full else ""), std="c++17", opt="-O0", san="none", defines=["WIDE_ALL=1"] if full else [])
 
 
+RELVISIT = os.path.join(HERE, "relvisit.cpp")
+
+
+def build_relvisit(mid=70, midmid=False):
+    return vlib.compile_cxx(RELVISIT, "c05-relvisit-%d%s" % (mid, "-mm" if midmid else ""), std="c++17", opt="-O1", san="asan-only", defines=["MID_N=%d" % mid] + (["VISIT_MIDMID=1"] if midmid else []))
+
+
+def relvisit_plan(tier):
+    # (number of alternatives of the wide operand, also visit(wide, wide)?, harness args)
+    if tier == "quick":
+        return [(70, False, [])]
+    return [(70, False, []), (260, False, ["--part", "visit"]), (40, True, ["--part", "visit"])]
+
+
 def plan(tier):
     # (six alternatives?, number of variants, extra args)
     if tier == "quick":
@@ -31,15 +45,18 @@ def plan(tier):
 
 def run(ctx):
     pl = plan(ctx.tier)
-    built = vlib.parallel([(lambda p=p: build(p[0], p[1])) for p in pl] + [lambda: build_wide(ctx.tier != "quick")])
-    bins, bw = built[:-1], built[-1]
+    rv = relvisit_plan(ctx.tier)
+    built = vlib.parallel([(lambda p=p: build(p[0], p[1])) for p in pl] + [(lambda r=r: build_relvisit(r[0], r[1])) for r in rv] + [lambda: build_wide(ctx.tier != "quick")])
+    bins, brv, bw = built[:len(pl)], built[len(pl):-1], built[-1]
     dl = str(int(max(60, ctx.time_left() - 30)))
     ctx.run_harness(bw, [], tag="wide")
+    for b, r in zip(brv, rv):
+        ctx.run_harness(b, r[2], tag="relvisit%d%s" % (r[0], "mm" if r[1] else ""))
     vlib.parallel([(lambda b=b, p=p: ctx.run_harness(b, p[2] + ["--deadline", dl], tag="altT" if p[0] == "T" else "altA" if p[0] == "A" else "altM" if p[0] == "M" else ("alt6" if p[0] else "alt4"))) for b, p in zip(bins, pl)])
     ctx.stats["evaluations"] = ctx.stats.get("transitions", 0)
     ctx.stats["distinct_nontrivial"] = ctx.stats.get("states", 0)
     ctx.rule = ("BFS over operation histories of two (and three) xtl::variant<Triv,NT,TH,Big> objects (Triv trivially copyable; NT nothrow-movable tracked; TH tracked with throwing copy, move and assignment; Big tracked 24 bytes) "
-                "the 6-alternative variant<Triv,NT,TH,Big,TH,NT> with duplicate types (index-based access only) and variant<Triv,TT> whose alternatives are all trivially destructible while TT's converting constructor can throw after writing the storage, variant<Triv,NT,TM,Big> where TM has a nothrow move assignment but a throwing move constructor (every throw point of move assignment between different alternatives), variant<Triv,TA,TA',TA''> whose tracked alternatives have defaulted (trivial) copy/move assignment but registering constructors/destructors (the registry records which type was constructed at which address), plus a const third variant for 3-way visitation. WIDE part: a variant with 260 distinct alternatives; for the alternatives around 127/128, 255/256 and the ends (quick) / every alternative (thorough): emplace, index, valueless, holds_alternative, get/get_if incl. neighbours and index+256, visit, move (thorough also copy, assignment, swap, relational) and lifetime balance. State = history replayed on a fresh world, "
+                "the 6-alternative variant<Triv,NT,TH,Big,TH,NT> with duplicate types (index-based access only) and variant<Triv,TT> whose alternatives are all trivially destructible while TT's converting constructor can throw after writing the storage, variant<Triv,NT,TM,Big> where TM has a nothrow move assignment but a throwing move constructor (every throw point of move assignment between different alternatives), variant<Triv,TA,TA',TA''> whose tracked alternatives have defaulted (trivial) copy/move assignment but registering constructors/destructors (the registry records which type was constructed at which address), plus a const third variant for 3-way visitation. WIDE part: a variant with 260 distinct alternatives; for the alternatives around 127/128, 255/256 and the ends (quick) / every alternative (thorough): emplace, index, valueless, holds_alternative, get/get_if incl. neighbours and index+256, visit, move (thorough also copy, assignment, swap, relational) and lifetime balance. RELATIONAL part (relvisit.cpp): all six operators on all ordered pairs of the 14 states of variant<Ind<0>,double,Ind<1>,Thrower> (valueless; Ind values 0..2 whose six comparison operators are independent truth tables, so an operator re-expressed through another one answers differently; double NaN, 1, 2, -0, +0, inf), oracle [variant.relops] written out and libstdc++ std::variant in the same states. MULTI-VISIT part: visit over 2 and 3 variants where one operand has 70 (quick; thorough also 260, and 40 x 40) alternatives, EVERY tuple of active indices and a valueless operand in every position: exactly one call, with the active alternatives and the held objects in operand order. State = history replayed on a fresh world, "
                 "deduplicated by (index,value,moved-from) of both variants; to fixpoint. Alphabet: emplace<I>(args / copy / move), emplace<T>, converting assignment from lvalue/rvalue of every alternative, "
                 "copy/move assignment incl. self, member and free swap incl. self, copy/move construction into a temporary and in place, recreate. FAULTS: each operation in each state unfaulted (counting K throw points) "
                 "and then with the k-th throwing for every k=1..K. Oracle: fault-free = hand model cross-checked with std::variant in lock-step; faulted = the statement's rule (valueless or a fully constructed alternative "
@@ -53,6 +70,9 @@ def run(ctx):
 
 
 def replay(ctx, rec):
+    if rec["args"] and rec["args"][0] == "--part":
+        ctx.run_harness(build_relvisit(), rec["args"], tag="relvisit")
+        return
     if rec["args"] and rec["args"][0] == "--only":
         ctx.run_harness(build_wide(int(rec["args"][1]) not in WIDE_QUICK), rec["args"], tag="wide")
         return
